@@ -1,10 +1,10 @@
 (** C07 -- Request dispatchers never deadlock. *)
-From Verif Require Import Base.Prelude M1.Client M1.ClientProofs M1.ClientOwn.
+From Verif Require Import Base.Prelude M1.Client M1.ClientProofs M1.ClientOwn M1.Server M1.ServerInv.
 
 (** Client dispatcher, EVERY schedule (possible since the repairs F9 / F18: a completion never waits for room in the ready
     channel, and F34: the timer is never waited for): the message pump never blocks for good and never panics,
     whatever the interleaving of sends, replies, timeouts, write failures, disconnects, restarts and its own iterations. *)
-Theorem C07_client_pump_never_stuck : forall c t ls, Forall wf_lab ls -> pumpStuck (run ls (init c t)) = false.
+Theorem C07_client_pump_never_stuck : forall c t ls, Forall wf_lab ls -> Client.pumpStuck (run ls (init c t)) = false.
 Proof. exact pump_never_stuck_S1. Qed.
 Print Assumptions C07_client_pump_never_stuck.
 
@@ -12,7 +12,7 @@ Print Assumptions C07_client_pump_never_stuck.
     readyForDispatch channel nor on a timer drain), whatever the history of sends, replies, timeouts,
     write failures, disconnects and restarts. *)
 Theorem C07_client_pump_never_stuck_partial : forall c t ls, Forall wf_lab ls -> run_ok ls (init c t) = true ->
-  pumpStuck (run ls (init c t)) = false.
+  Client.pumpStuck (run ls (init c t)) = false.
 Proof. exact pump_never_stuck_S0. Qed.
 Print Assumptions C07_client_pump_never_stuck_partial.
 
@@ -23,3 +23,10 @@ Theorem C07_client_S0_nonvacuous :
   conc (tr (qrun [Start; Send 1 true; Send 2 true; Reply 1 0; Expire] (init 2 0))) = [1; 2].
 Proof. exact demo_in_S0. Qed.
 Print Assumptions C07_client_S0_nonvacuous.
+
+(** Server dispatcher, EVERY schedule: the message pump never dereferences an empty queue (no panic) and never blocks
+    for good inside an iteration (since the repairs F3 / F18: neither posting a ready token nor a request token waits
+    for the pump itself). *)
+Theorem C07_server_pump_never_stuck : forall cap d ls, Forall wf_slab ls -> Server.pumpStuck (srun ls (sinit cap d)) = false.
+Proof. exact s_pump_never_stuck_S1. Qed.
+Print Assumptions C07_server_pump_never_stuck.
